@@ -41,7 +41,8 @@ def build(case):
     """case: dict(fields=[(name, decl)], methods={name: kind}, settings=[(selector method, [field names])])"""
     top, nested = [field('name', 1, 'string'), field('payload', 2, 'string')], [field('keep', 1, 'string')]
     for i, (fname, d) in enumerate(case['fields']):
-        f = field(fname, 10 + i, d['type'], optional=d['optional'], required=d['required'], uuid4=d['annotated'], repeated=d.get('repeated', False))
+        kw = dict(behaviors=d['behaviors']) if d.get('behaviors') else dict(required=d['required'])
+        f = field(fname, 10 + i, d['type'], optional=d['optional'], uuid4=d['annotated'], repeated=d.get('repeated', False), **kw)
         (top if d['position'] == 'top' else nested).append(f)
     top.append(field('inner', 3, Q('Inner')))
     msgs = [message('Inner', nested), message('Req', top), message('Resp', [field('ok', 1, 'bool')])]
@@ -116,6 +117,14 @@ def cases():
     # a *repeated* string is not "a string" field
     out.append(dict(id='decl/repeated-string', fields=[('request_id', dict(GOOD, repeated=True))], methods={'Do': 'unary'},
                     settings=[('Do', ['request_id'])], accept=False, drive=[]))
+    # several field behaviours on the field: REQUIRED disqualifies it wherever it stands in the list
+    from google.api import field_behavior_pb2 as fb
+    for bid, beh, ok in (('input-only+required', [fb.INPUT_ONLY, fb.REQUIRED], False), ('immutable+required+input-only', [fb.IMMUTABLE, fb.REQUIRED, fb.INPUT_ONLY], False),
+                         ('required+input-only', [fb.REQUIRED, fb.INPUT_ONLY], False), ('input-only+immutable', [fb.INPUT_ONLY, fb.IMMUTABLE], True),
+                         ('optional+input-only', [fb.OPTIONAL, fb.INPUT_ONLY], True)):
+        d_ = dict(GOOD, behaviors=beh, required=not ok)
+        out.append(dict(id=f'decl/behaviours/{bid}', fields=[('request_id', d_)], methods={'Do': 'unary'}, settings=[('Do', ['request_id'])],
+                        accept=ok, drive=[('Do', [('request_id', d_)])] if ok else []))
     for kind in ('server-streaming', 'client-streaming', 'bidi'):
         out.append(dict(id=f'method/{kind}', fields=[('request_id', GOOD)], methods={'Do': kind}, settings=[('Do', ['request_id'])],
                         accept=False, drive=[]))
